@@ -80,7 +80,8 @@ for _m in (c01, c02, c03, c04, c08, c09, c10, c11, c12, c16):
 def jobs(tier):
     import itertools
     js = []
-    js += [j for j in c01.jobs(tier) if j["h"] in ("c01.step", "c01.wrappers", "c01.history")]
+    # (the 192- and 1438-bit geometries of C01's thorough tier say nothing more about the counter; their `bits-exact` query is near the solver limit)
+    js += [j for j in c01.jobs(tier) if j["h"] in ("c01.step", "c01.wrappers", "c01.history") and j["cfg"]["est"] < 20]
     js += [j for j in c02.jobs(tier) if j["h"] in ("c02.step", "c02.wrappers")]
     js += c03.scoped([j for j in c03.jobs(tier) if j["h"].split(".")[1].replace("cc_", "") in ("add", "remove", "expand")
                       and not (j["cfg"]["auto"] and j["cfg"]["cap"] * j["cfg"]["bsz"] > 1)], "count")
